@@ -60,7 +60,8 @@ def _make_exc(kind: str, msg: str) -> BaseException:
 class DropCtl:
     """Per-render control block: access log, counters and armed faults."""
 
-    __slots__ = ("log", "count", "fail_keys", "fail_at", "fired", "tag", "keep_log", "exc")
+    __slots__ = ("log", "count", "fail_keys", "fail_at", "fired", "tag", "keep_log", "exc",
+                 "reenter_at", "reenter", "reentered")
 
     def __init__(self, tag: str = "", *, fail_keys=(), fail_at: int | None = None,
                  keep_log: bool = False, exc: str = "InjectedFault") -> None:
@@ -72,11 +73,18 @@ class DropCtl:
         self.fired = 0
         self.tag = tag
         self.keep_log = keep_log
+        self.reenter_at: int | None = None   # re-entrancy fault: at access k the data source calls
+        self.reenter = None                  # back into the library (a nested, independent render)
+        self.reentered = 0
 
     def access(self, path: str, key: Any) -> None:
         self.count += 1
         if self.keep_log:
             self.log.append(f"{path}.{key}")
+        if self.reenter_at is not None and self.count == self.reenter_at and self.reenter is not None:
+            fn, self.reenter = self.reenter, None
+            self.reentered += 1
+            fn()
         if self.fail_at is not None and self.count == self.fail_at:
             self.fired += 1
             raise _make_exc(self.exc, f"{self.tag}#{self.count}")
